@@ -51,6 +51,15 @@ def sequence(r, thorough):
             l = r.choice(labels)
             sites[l] = (r.choice([1, 1, 2, 3]), r.choice([1, 2, 2, 3]))
             lines.append("site %s %d %d" % (L(l), sites[l][0], sites[l][1]))
+            if r.chance(1, 3):
+                # a sibling site that agrees in ONE of the two sizes only (the two-site presets must compare both)
+                l2 = r.choice([x for x in labels if x != l])
+                if r.chance(1, 2):
+                    sites[l2] = (sites[l][0], r.choice([x for x in (1, 2, 3) if x != sites[l][1]]))
+                else:
+                    sites[l2] = (r.choice([x for x in (1, 2, 3) if x != sites[l][0]]), sites[l][1])
+                lines.append("site %s %d %d" % (L(l2), sites[l2][0], sites[l2][1]))
+                lines.append("dumplattice")
         elif k < 7:
             n = r.choice([2, 2, 4, 4, 6])
             fs = []
